@@ -638,6 +638,26 @@ def run_case(ctx, i, rng):
         eng = gen_ops.Engine(rng, "naming", policy, fences=[FENCE_KEYS[k] for k in fences])
         m = C10Monitor(ctx)
         gen_ops.run_history(eng, rng.randint(100, 220), [m])
+        # the window closes (or opens): the process-wide default becomes the OTHER policy - the elements built so far keep theirs,
+        # and an identifier write on them is judged by THEIR policy
+        sdn.namespace_manager.default = "DEFAULT" if policy == "EDIF" else "EDIF"
+        pool_ = [x for x in eng.u.libs + eng.u.defs + eng.u.ports + eng.u.cables + eng.u.insts if parent_of(x) is not None and policy_of(x) == policy]
+        for x in rng.sample(pool_, min(len(pool_), 6)):
+            v = rng.choice(["1bad", "c-1", "&", "u 0", "_x", "fresh_ok_%d" % rng.randrange(10 ** 6), "Fresh_%d" % rng.randrange(10 ** 6)])
+            sibs_ = [y for y in siblings(parent_of(x), x) if y is not x]
+            clash = any(isinstance(y.get("EDIF.identifier"), str) and y["EDIF.identifier"].lower() == v.lower() for y in sibs_)
+            must_refuse = policy == "EDIF" and (not LEGAL.match(v) or clash)
+            ctx.count("identifier_writes_after_the_default_policy_changed")
+            try:
+                x["EDIF.identifier"] = v
+                refused = False
+            except ValueError:
+                refused = True
+            if refused != must_refuse:
+                ctx.violation("identifier-write-judged-by-the-default-policy:%s" % ("false-acceptance" if must_refuse else "false-refusal"),
+                              "element built under %s, default policy now %s: EDIF.identifier = %r on a %s was %s" % (
+                                  policy, sdn.namespace_manager.default, v, type(x).__name__, "refused" if refused else "accepted"))
+                break
         ctx.fingerprint([(e[1], e[3]) for e in eng.log], m.refusals >= 5 and m.renames >= 10)
         if i < 2:
             ctx.sample({"policy": policy, "history_head": eng.log[:30]})
